@@ -280,7 +280,8 @@ class MySQLProvider(DBAPIProvider):
                 sql = 'SET foreign_key_checks = 0'
                 if core.local.debug: log_orm(sql)
                 cursor.execute(sql)
-            cache.saved_fk_state = bool(fk)
+            if fk: cache.saved_fk_state = True  # a later transaction of the same session finds the checks switched off already
+            elif cache.saved_fk_state is None: cache.saved_fk_state = False
             cache.in_transaction = True
         cache.immediate = True
         if db_session is not None and db_session.serializable:
